@@ -197,13 +197,19 @@ package parser
 
 // ---- C05: a condition that is not of type bool is reported ----
 
+// The scope chain (scope.outer links) is written only when a scope is created; no parsing step re-links it,
+// and the condition and block of a conditional block are set once by the function that builds it.
+//@ frameset parseFrame = parser.scope.outer, parser.ConditionalBlock.Condition, parser.ConditionalBlock.Block
+
 //@ func (p *parser) parseTopLevelExpr() (n Node)
 //@   noverify the Pratt parser itself is not under contract; it advances the parser and may append diagnostics
-//@   modifies everything
+//@   ensures p.scope == old(p.scope) && p.cur != nil && p.peek != nil
+//@   modifies allbut parseFrame
 
 //@ func (p *parser) assertEOL() ()
 //@   noverify appends a diagnostic unless the parser is at the end of a line
-//@   modifies everything
+//@   ensures p.scope == old(p.scope) && p.cur != nil && p.peek != nil
+//@   modifies allbut parseFrame
 
 //@ func (p *parser) parseCondition() (cond Node)
 //@   props C05 C04
@@ -213,4 +219,75 @@ package parser
 //@   ensures[C05 expression-parsed-once] ncalls("(*parser).parseTopLevelExpr") == 1 && cond == callres("(*parser).parseTopLevelExpr", 1, 0)
 //@   ensures[C05 C04 condition-must-be-bool] cond != nil && callres("(Node).Type", 1, 0).(*Type) != BOOL_TYPE ==> k == 1 && callarg("(*parser).appendErrorForToken", 1, 2).(*lexer.Token) == tok
 //@   ensures[C05 bool-condition-not-rejected-here] cond != nil && callres("(Node).Type", 1, 0).(*Type) == BOOL_TYPE ==> k == 0
-//@   modifies everything
+//@   ensures[C10 scope-restored] p.scope == old(p.scope)
+//@   ensures[C03 cursor-valid] p.cur != nil && p.peek != nil
+//@   modifies allbut parseFrame
+
+// ---- C10/C05: block scopes are opened and closed around exactly the block they belong to ----
+
+// Parsing steps that are not under contract themselves: assumed to leave the current scope pointer and the scope
+// chain as they found them (each pushes and pops only its own scopes).
+//@ func (p *parser) advance() ()
+//@   noverify token cursor
+//@   ensures p.scope == old(p.scope) && p.cur != nil && p.peek != nil
+//@   modifies allbut parseFrame
+//@ func (p *parser) advancePastNL() ()
+//@   noverify token cursor
+//@   ensures p.scope == old(p.scope) && p.cur != nil && p.peek != nil
+//@   modifies allbut parseFrame
+//@ func (p *parser) curComment() (s string)
+//@   noverify formatting bookkeeping
+//@   ensures p.scope == old(p.scope) && p.cur != nil && p.peek != nil
+//@   modifies allbut parseFrame
+//@ func (p *parser) recordComment(n Node) ()
+//@   noverify formatting bookkeeping
+//@   ensures p.scope == old(p.scope) && p.cur != nil && p.peek != nil
+//@   modifies allbut parseFrame
+//@ func (p *parser) recordCommentString(n Node, comment string) ()
+//@   noverify formatting bookkeeping
+//@   ensures p.scope == old(p.scope) && p.cur != nil && p.peek != nil
+//@   modifies allbut parseFrame
+//@ func (p *parser) assertEnd() ()
+//@   noverify appends a diagnostic unless the current token is `end`
+//@   ensures p.scope == old(p.scope) && p.cur != nil && p.peek != nil
+//@   modifies allbut parseFrame
+//@ func (p *parser) parseBlock() (b *BlockStatement)
+//@   noverify statement list; declarations go into the current scope, nested blocks open and close their own
+//@   ensures p.scope == old(p.scope) && p.cur != nil && p.peek != nil
+//@   modifies allbut parseFrame
+//@ func (p *parser) parseIfBlock() (b *BlockStatement)
+//@   noverify statement list of an if branch
+//@   ensures p.scope == old(p.scope) && p.cur != nil && p.peek != nil
+//@   modifies allbut parseFrame
+
+//@ func (p *parser) parseIfConditionalBlock() (b *ConditionalBlock)
+//@   props C10 C05
+//@   requires p.cur != nil
+//@   ensures[C10 scope-restored] p.scope == old(p.scope)
+//@   ensures[C03 cursor-valid] p.cur != nil && p.peek != nil
+//@   ensures[C05 condition-then-block] ncalls("(*parser).parseCondition") == 1 && ncalls("(*parser).parseIfBlock") == 1 && b != nil && b.Condition == callres("(*parser).parseCondition", 1, 0) && b.Block == callres("(*parser).parseIfBlock", 1, 0).(*BlockStatement)
+//@   modifies allbut parseFrame
+
+// Every branch of an if statement is parsed in a scope of its own whose outer scope is the one the statement
+// appears in, and the statement leaves the parser in that scope.
+//@ func (p *parser) parseIfStatement() (n Node)
+//@   props C10 C05
+//@   requires p.cur != nil && p.peek != nil && p.scope != nil
+//@   ensures[C10 scope-restored] p.scope == old(p.scope)
+//@   ensures[C03 cursor-valid] p.cur != nil && p.peek != nil
+//@   modifies allbut parseFrame
+//@   loop 1 modifies allbut parseFrame
+//@   loop 1 invariant p.scope == old(p.scope) && ifStmt != nil && p.cur != nil && p.peek != nil
+
+//@ func (p *parser) parseFuncCall(isTopLevel bool) (n Node)
+//@   noverify argument parsing and checking are not under contract
+//@   ensures is(n, *FuncCall) && ref(n) != 0 && p.scope == old(p.scope) && p.cur != nil && p.peek != nil
+//@   modifies allbut parseFrame
+
+// A call statement must be followed by the end of the line: the check is made, once, after the arguments.
+//@ func (p *parser) parseFunCallStatement() (n Node)
+//@   props C05 C10
+//@   ensures[C05 end-of-line-asserted] ncalls("(*parser).parseFuncCall") == 1 && ncalls("(*parser).assertEOL") == 1
+//@   ensures[C05 statement-node] is(n, *FuncCallStmt)
+//@   ensures[C10 scope-restored] p.scope == old(p.scope)
+//@   modifies allbut parseFrame
